@@ -41,7 +41,13 @@ MANIFEST = dict(
          "until the stop. The real code answers to the same operators (spec/Phout.tla): every line the real "
          "aggregators hand to their sink must be PhoutLine(s) / decode to s of a not yet written report, the "
          "counts must add up at Run return, and real processes stopped by SIGINT/SIGTERM must leave "
-         "lines + drops between the reports returned before the signal and the reports begun before exit.",
+         "lines + drops between the reports returned before the signal and the reports begun before exit. "
+         "Beyond the statement: PoolAgg.tla composes the engine's await loop with the aggregator (the aggregator is "
+         "cancelled only after every instance result was awaited; exactly which late reports a provider failure or "
+         "user cancel may lose), validated on real engine runs whose life-cycle hooks are merged into the "
+         "report/line trace (TracePoolAgg.tla); Sink.tla / TraceSink.tla: result files are created/truncated, never "
+         "appended, closed once (two pools with ONE file name tear and lose lines: known finding); the discard and "
+         "log aggregators and the buffer-size / flush-interval option bounds as further cases of Aggregator.tla.",
     note="Bounds: design K<=3 reporters x 2 samples, Q<=2; conformance K in 1..8, queue 1..64, flush 1 ms..1 s, "
          "int32 field values, tags without TAB/LF (phout), timestamps 2001..2038. Trusted: the syntactic line "
          "splitter and the recording sinks of harness/cmd/vdrive/agg*.go, the counting wrapper of vpandora. Not "
@@ -50,6 +56,8 @@ MANIFEST = dict(
          "timeout) are exempt by design.",
 )
 
+
+ENGINE_MODES = ("engine", "cancel", "provfail")
 
 # ------------------------------------------------------------------------------------------ build
 
@@ -84,13 +92,24 @@ def build():
 def design(thorough):
     pos = [("AggregatorMC", "Aggregator_exh.cfg"), ("AggregatorMC", "Aggregator_exh_block.cfg"),
            ("AggregatorMC", "Aggregator_exh_q2.cfg"), ("AggregatorMC", "Aggregator_exh_block_q2.cfg"),
-           ("ShutdownMC", "Shutdown_exh.cfg"), ("ShutdownMC", "Shutdown_exh_drop.cfg")]
+           ("ShutdownMC", "Shutdown_exh.cfg"), ("ShutdownMC", "Shutdown_exh_drop.cfg"),
+           # engine await loop composed with the aggregator (PoolAgg.tla)
+           ("PoolAggMC", "PoolAgg_exh_nofault.cfg"), ("PoolAggMC", "PoolAgg_exh_small.cfg"),
+           # result destinations (Sink.tla): own files as coded; what a repair of the shared file must establish
+           ("SinkMC", "Sink_exh.cfg"), ("SinkMC", "Sink_repair.cfg"),
+           ("AggregatorMC", "Aggregator_exh_discard.cfg")]
     if thorough:
         pos += [("AggregatorMC", "Aggregator_exh_big.cfg"), ("ShutdownMC", "Shutdown_exh_q2.cfg"),
-                ("ShutdownMC", "Shutdown_exh_big.cfg")]
+                ("ShutdownMC", "Shutdown_exh_big.cfg"),
+                ("PoolAggMC", "PoolAgg_exh.cfg"), ("PoolAggMC", "PoolAgg_exh_block.cfg"),
+                ("PoolAggMC", "PoolAgg_live.cfg"), ("PoolAggMC", "PoolAgg_exh_big.cfg")]
     neg = [("AggregatorMC", "Aggregator_neg_nodrain.cfg"), ("AggregatorMC", "Aggregator_neg_noflush.cfg"),
            ("AggregatorMC", "Aggregator_neg_nocount.cfg"), ("AggregatorMC", "Aggregator_neg_late.cfg"),
-           ("ShutdownMC", "Shutdown_neg_nowait.cfg"), ("ShutdownMC", "Shutdown_neg_reach.cfg")]
+           ("ShutdownMC", "Shutdown_neg_nowait.cfg"), ("ShutdownMC", "Shutdown_neg_reach.cfg"),
+           ("PoolAggMC", "PoolAgg_neg_early.cfg"), ("PoolAggMC", "PoolAgg_neg_early_complete.cfg"),
+           ("SinkMC", "Sink_neg_samefile.cfg"), ("SinkMC", "Sink_neg_append_midline.cfg"), ("SinkMC", "Sink_neg_latetrunc.cfg")]
+    if thorough:
+        neg += [("PoolAggMC", "PoolAgg_neg_reach.cfg")]
     vlib.spec_copy()
 
     def one(mc):
@@ -111,7 +130,8 @@ def design(thorough):
     if thorough:
         # every action of the design modules must have fired (an action that never fires is a modelling hole)
         import re
-        for mod, cfg in (("AggregatorMC", "Aggregator_exh.cfg"), ("ShutdownMC", "Shutdown_exh_drop.cfg")):
+        for mod, cfg in (("AggregatorMC", "Aggregator_exh.cfg"), ("ShutdownMC", "Shutdown_exh_drop.cfg"),
+                         ("PoolAggMC", "PoolAgg_exh_small.cfg")):
             r = vlib.tlc(mod, cfg, workers=4, heap="4g", timeout=3000, deadlock=False, coverage=True)
             vlib.tlc_must_pass(r, cfg + " (coverage)")
             acts = re.findall(r"^<(\w+) line \d+, col \d+ to line \d+, col \d+ of module \w+>: (\d+):(\d+)", r.out, re.M)
@@ -180,10 +200,13 @@ def validate(v, module, rows, d, describe, name):
             validated += len(runs)
             break
         ln = int(tr.trace_state.get("l", "1"))
-        idx = min(max(ln - (1 if tr.what == "Accepted" else 2), 0), len(rows) - 1)
+        idx = min(max(ln - (1 if tr.what in ("Accepted", "PAccepted") else 2), 0), len(rows) - 1)
         ev = rows[idx]
         run = ev["run"]
         bad = tr.trace_state.get("bad", "").replace(" ", "").replace('"', "")
+        bad2 = tr.trace_state.get("bad2", "").replace(" ", "").replace('"', "")
+        if bad2 not in ("", "{}"):
+            bad = bad2 if bad in ("", "{}") else bad + bad2
         evs = [r for r in rows if r["run"] == run]
         sig, what = describe(evs, ev, tr.what, bad)
         v.violation(sig, what, replay_obj={"kind": name, "module": module, "events": evs, "at": ev, "bad": bad},
@@ -196,7 +219,7 @@ def validate(v, module, rows, d, describe, name):
 def describe_agg(evs, ev, inv, bad):
     head = next((e for e in evs if e["ev"] == "Run"), {})
     nrep = sum(1 for e in evs if e["ev"] == "Report") + sum(e["n"] for e in evs if e["ev"] == "Reports")
-    nline = sum(1 for e in evs if e["ev"] in ("Line", "JLine", "BadLine"))
+    nline = sum(1 for e in evs if e["ev"] in ("Line", "JLine", "LogLine", "BadLine"))
     end = next((e for e in evs if e["ev"] == "RunEnd"), {})
     brief = {k: ev.get(k) for k in ("ev", "c", "raw", "s", "dropped", "err", "partial", "lines") if k in ev}
     return ("agg kind=%s mode=%s inv=%s bad=%s" % (head.get("kind"), head.get("mode"), inv, bad),
@@ -217,6 +240,47 @@ def describe_sig(evs, ev, inv, bad):
                 st.get("gomaxprocs") or "default",
                 st.get("sig"), st.get("after_ms"), sg.get("returned_before"), ex.get("entered"), ex.get("lines"),
                 ex.get("dropped"), ex.get("last_complete"), ex.get("agg_returned"), ex.get("status"), bad))
+
+
+def sink_runs(v, vdrive, d, n):
+    """Result destinations (Sink.tla): real engine runs writing to real files; one TLC run with -continue."""
+    path = os.path.join(d, "aggsink.ndjson")
+    vlib.run_driver(vdrive, ["aggsink", "-out", path, "-runs", str(n)], timeout=1200)
+    rows = sorted(vlib.read_ndjson(path), key=lambda r: r["run"])
+    p = os.path.join(d, "aggsink_sorted.ndjson")
+    vlib.write_ndjson(p, rows)
+    tr = vlib.tlc("TraceSink", "TraceSink.cfg", env={"VERIF_TRACE": p}, workers=1, deadlock=False, timeout=1200,
+                  heap="3g", cont=True)
+    if tr.error or tr.distinct != len(rows) + 1:
+        raise vlib.MachineryError("TraceSink failed (%s, %d states for %d events)\n%s" % (tr.kind, tr.distinct, len(rows), tr.out[-3000:]))
+    per_run = {}
+    for inv, st in tr.all_violations:
+        ln = int(st.get("l", "0"))
+        if ln < 2:
+            continue
+        if inv == "Accepted":
+            raise vlib.MachineryError("TraceSink cannot take event %s" % rows[min(ln, len(rows)) - 1])
+        run = rows[min(ln - 2, len(rows) - 1)]["run"]
+        if run not in per_run or ln > per_run[run][0]:
+            per_run[run] = (ln, st.get("bad", "").replace(" ", "").replace('"', ""))
+    heads = {r["run"]: r for r in rows if r["ev"] == "SinkRun"}
+    for run, (ln, bad) in sorted(per_run.items()):
+        h = heads[run]
+        evs = [r for r in rows if r["run"] == run]
+        files = [{k: e[k] for k in ("file", "lines", "malformed", "partial", "stale_left")} for e in evs if e["ev"] == "File"]
+        nrep = sum(e["n"] for e in evs if e["ev"] == "Reported")
+        v.violation("sink layout=%s kind=%s inv=NoViolation bad=%s" % ("same" if h["same"] else "own", h["kind"], bad),
+                    "%d pool(s) writing %s results to %s: %d reports, files %s: %s" % (
+                        h["pools"], h["kind"], "ONE file name" if h["same"] else "their own files", nrep, files, bad),
+                    replay_obj={"kind": "sink", "module": "TraceSink", "events": evs, "bad": bad},
+                    replay_name="sink_run%d.json" % run)
+    layouts = {}
+    for h in heads.values():
+        key = "%s %s" % (h["kind"], "two pools one file" if h["same"] else ("two pools two files" if h["pools"] == 2 else "one pool"))
+        layouts[key] = layouts.get(key, 0) + 1
+    return {"runs": len(heads), "events": len(rows), "layouts": layouts, "runs_flagged": len(per_run),
+            "opens": sum(1 for r in rows if r["ev"] == "Open"), "writes": sum(1 for r in rows if r["ev"] == "Write"),
+            "trace_spec_states": tr.distinct}
 
 
 def machinery_events(rows, what):
@@ -244,13 +308,24 @@ def run(tier, v):
     ncases, cstates, ctrans, csamples = format_cases(v, vdrive, d)
     # M1 in-process
     agg_path = os.path.join(d, "agg.ndjson")
-    nruns, neng, ncan, nstress = (5000, 300, 1500, 40) if thorough else (300, 24, 40, 4)
+    nruns, neng, ncan, nstress, nprov, nother = (5000, 300, 1500, 40, 700, 400) if thorough else (300, 24, 40, 4, 24, 30)
     vlib.run_driver(vdrive, ["agg", "-out", agg_path, "-runs", str(nruns), "-engine", str(neng), "-cancel", str(ncan),
-                             "-dropstress", str(nstress)], timeout=3000)
+                             "-dropstress", str(nstress), "-provfail", str(nprov), "-other", str(nother)], timeout=3000)
     rows = vlib.read_ndjson(agg_path)
-    agg_validated, agg_states = validate(v, "TraceAggregator", rows, d, describe_agg, "agg")
+    # real engine runs (hooks of the await loop merged with report / line events) answer to PoolAgg's trace
+    # specification, which re-uses every action of TraceAggregator; direct runs to TraceAggregator itself
+    eng_runs = {r["run"] for r in rows if r["ev"] == "Run" and r["mode"] in ENGINE_MODES}
+    with concurrent.futures.ThreadPoolExecutor(max_workers=2) as ex:
+        f1 = ex.submit(validate, v, "TraceAggregator", [r for r in rows if r["run"] not in eng_runs], d, describe_agg, "agg")
+        f2 = ex.submit(validate, v, "TracePoolAgg", [r for r in rows if r["run"] in eng_runs], d, describe_agg, "poolagg")
+        agg_validated, agg_states = f1.result()
+        pa_validated, pa_states = f2.result()
+    agg_validated += pa_validated
+    agg_states += pa_states
+    nhooks = sum(1 for r in rows if r["ev"] == "Hook")
+    sink_cov = sink_runs(v, vdrive, d, 60 if thorough else 9)
     nrep = sum(1 for r in rows if r["ev"] == "Report") + sum(r["n"] for r in rows if r["ev"] == "Reports")
-    nlines = sum(1 for r in rows if r["ev"] in ("Line", "JLine"))
+    nlines = sum(1 for r in rows if r["ev"] in ("Line", "JLine", "LogLine"))
     ndrop = sum(r["dropped"] for r in rows if r["ev"] == "RunEnd")
     droprun = sum(1 for r in rows if r["ev"] == "RunEnd" and r["dropped"] > 0)
     # process level
@@ -273,19 +348,24 @@ def run(tier, v):
     samples.append({"tlc_format_cases": csamples})
     cov = {
         "states": states, "transitions": trans,
-        "traces_validated_against_impl": agg_validated + sig_validated,
+        "traces_validated_against_impl": agg_validated + sig_validated + sink_cov["runs"],
         "samples": samples,
         "design_tlc": per,
         "in_process_runs": {"validated": agg_validated, "events": len(rows), "reports": nrep, "lines": nlines,
                             "dropped": ndrop, "runs_with_drops": droprun, "engine_runs": neng, "engine_runs_cancelled_midway": ncan,
                             "modes": {m: sum(1 for r in rows if r["ev"] == "Run" and r["mode"] == m)
-                                      for m in ("normal", "late", "burst", "engine", "cancel", "dropstress")},
+                                      for m in ("normal", "late", "burst", "engine", "cancel", "provfail", "dropstress")},
+                            "engine_runs_provider_failed_midway": nprov,
+                            "kinds": {k: sum(1 for r in rows if r["ev"] == "Run" and r["kind"] == k)
+                                      for k in ("phout", "jsonlines", "log", "discard")}, "engine_hook_events": nhooks,
+                            "engine_runs_validated_by_TracePoolAgg": pa_validated,
                             "trace_spec_states": agg_states},
         "signal_runs": {"validated": sig_validated, "signalled": len(sigs), "self_ended": len(exits) - len(sigs),
                         "forced": sum(1 for e in exits if e.get("forced")),
                         "late_reports_lost": sum(e["entered"] - e["lines"] - e["dropped"] for e in exits),
                         "reports": sum(e["entered"] for e in exits), "trace_spec_states": sig_states},
         "format_cases": {"cases": ncases, "tlc_states": cstates},
+        "result_destinations": sink_cov,
         "evaluations": ncases + agg_validated + sig_validated,
         "distinct_nontrivial": ncases + len({(r["kind"], r["k"], r["q"], r["flush_ms"], r["ids"], r["mode"]) for r in rows if r["ev"] == "Run"}),
         "rule": "format cases: the complete abstract case space of PhoutCases.tla (distinct by construction); in-process "
@@ -316,5 +396,5 @@ def replay(path, v):
             v.violation("replay phoutcase", "real phout line %r differs from PhoutLine %s" % (o.get("raw"), c["expect"]))
         return None
     module = obj["module"]
-    validate(v, module, obj["events"], d, describe_agg if module == "TraceAggregator" else describe_sig, "replay")
+    validate(v, module, obj["events"], d, describe_sig if module == "TraceShutdown" else describe_agg, "replay")
     return None
